@@ -179,6 +179,12 @@ where
         }
         let mut found = BTreeSet::new();
         while let Some((link, path_pos)) = links.pop() {
+            // Normalized, like the import hook does it, so that a file reached through
+            // `..` is recognised as already linked and an import cycle that crosses
+            // directories ends here instead of growing the path forever.
+            let link: Rc<str> = crate::path::normalize(PathBuf::from(link.as_ref()))
+                .to_string_lossy()
+                .into();
             if found.contains(&link) {
                 continue;
             }
